@@ -21,8 +21,8 @@ def read_tree(root):
     return out
 
 
-def cli_compile(ctx, text, langs, workdir, with_word=False, timeout=120):
-    """run the real CLI in a fresh process; returns (rc, stdout, {lang: tree})"""
+def cli_compile(ctx, text, langs, workdir, with_word=False, timeout=120, shared=False):
+    """run the real CLI in a fresh process; returns (rc, stdout, {lang: tree}); shared: every target writes into ONE directory"""
     os.makedirs(workdir, exist_ok=True)
     src = os.path.join(workdir, 'in.dsl')
     with open(src, 'wb') as f:
@@ -30,7 +30,7 @@ def cli_compile(ctx, text, langs, workdir, with_word=False, timeout=120):
     cmd = [ctx.cli] + (['compile'] if with_word else []) + ['-f', src]
     outs = {}
     for l in langs:
-        d = os.path.join(workdir, 'out_' + l)
+        d = os.path.join(workdir, 'out_shared' if shared else 'out_' + l)
         outs[l] = d
         cmd += [FLAGS[l], d]
     logp = os.path.join(workdir, 'cli.log')
@@ -86,7 +86,18 @@ def c13(ctx):
     if can['distinct_orders'] < 2:
         ctx.inconc('map-order canary saw <2 distinct iteration orders: randomisation not observable, the run proves nothing')
         return
-    pool = rich_pool(ctx.seed, nproto, 'Dt') + [p for p in gen.matrix_protos() if p.tag.startswith(('Mm', 'Ml', 'Mo'))][:(10 if quick else 60)]
+    mat = gen.matrix_protos()
+    fam = lambda pre: [p for p in mat if p.tag.startswith(pre)]
+    pool = rich_pool(ctx.seed, nproto, 'Dt') + (fam('Mo') + fam('Mm')[::3] + fam('Ml')[::6] + fam('Mc')[::8] if quick else fam('Mo') + fam('Mm') + fam('Ml') + fam('Mc') + fam('Md') + fam('Mk'))
+    # protocols some generators refuse (no root packet): what is written before the CLI stops must not vary from run to run either
+    import copy
+    for q in fam('Mm')[:2] + fam('Mo')[:1]:
+        q = copy.deepcopy(q)
+        for pk in q.packets:
+            pk.root = False
+        q.tag = q.tag + 'nr'
+        q.expect_failure = True
+        pool.insert(0, q)
     per_target = {l: 0 for l in tools.LANGS}
     distinct_outputs = {l: 1 for l in tools.LANGS}
     ncli = 0
@@ -112,7 +123,7 @@ def c13(ctx):
             base = None
             for k in range(r2):
                 wd = os.path.join(ctx.scr.dir, 'c13', p.tag, str(k))
-                if base is not None and k % 2 == 1:
+                if base is not None and k % 2 == 1 and not getattr(p, 'expect_failure', False):
                     # "the same DSL with the same flags" into directories that were used before: every file already exists
                     # with other, longer content
                     ctx.counters['cli-runs-into-used-directories'] += 1
@@ -126,12 +137,18 @@ def c13(ctx):
                                 else:
                                     fh.write(b'stale\n' + data[::-1] + b'\nstale tail of an earlier, longer revision\n' * 8)
                 rc, log, trees = cli_compile(ctx, text, tools.LANGS, wd)
-                if rc != 0:
+                if rc != 0 and not getattr(p, 'expect_failure', False):
                     ctx.counters['cli-nonzero'] += 1
                     shutil.rmtree(wd, ignore_errors=True)
                     break
+                if getattr(p, 'expect_failure', False):
+                    ctx.counters['cli-runs-of-refused-protocols'] += 1
+                    trees = dict(trees, **{'__exit__': {'status': str(rc).encode()}})
                 if base is None:
                     base = trees
+                    if getattr(p, 'expect_failure', False):
+                        shutil.rmtree(wd, ignore_errors=True)
+                        continue
                     # "independent of process": the helper process has compiled many other protocols before this one, the CLI process none
                     inproc = ctx.vapi.compile(text, tools.LANGS)
                     for l in tools.LANGS:
@@ -144,7 +161,7 @@ def c13(ctx):
                             triage(ctx, 'C13', l, p, text, 'nondeterministic-output', 'a fresh CLI process and the long-running helper process (which compiled other protocols before) differ in %s: %s' % (
                                 d[:5], first_line_diff(trees[l].get(d[0][1:], b''), inproc['files'][l].get(d[0][1:], b''))), {'dsl': text, 'lang': l, 'diffs': d, 'mode': 'inproc-vs-cli'})
                 else:
-                    for l in tools.LANGS:
+                    for l in tools.LANGS + (['__exit__'] if getattr(p, 'expect_failure', False) else []):
                         ctx.evaluated(1, key=(p.tag, l, 'cli'), nontrivial=len(p.packets) >= 2)
                         d = tree_diff(base[l], trees[l])
                         if d:
@@ -179,6 +196,7 @@ def c14(ctx):
     pool += [p for p in gen.matrix_protos() if p.tag.startswith(('Mf', 'Md', 'Mp'))][:(12 if quick else 80)]
     pool += [p for p in gen.matrix_protos() if p.tag.startswith(('Mm', 'Ml'))][::(4 if quick else 1)]
     pool += [p for p in gen.matrix_protos() if p.tag.startswith('Mi')]     # identifier shapes: case conversion must not depend on what ran before
+    pool += [p for p in gen.matrix_protos() if p.tag.startswith('Mc') and any(f.kind == 'cksum' and f.algo != f.algo.upper() for pk in p.packets for f in pk.fields)][:6]   # names a generator might "normalise" in the shared model
     from .checks_wire import ident_protos
     pool += ident_protos(0)          # packet names that are not UpperCamel: a generator that "normalises" names in the shared model shows here
     import copy
@@ -257,6 +275,31 @@ def c14(ctx):
                 if d:
                     triage(ctx, 'C14', l, p, text, 'output-differs', 'CLI flags %s: %s tree differs from %s alone: %s' % (sub, l, l, d[:4]),
                            {'dsl': text, 'subset': sub, 'lang': l, 'diff': d})
+        # several targets into ONE directory: the union of the stand-alone file sets, each file unchanged
+        for sub in ([tools.LANGS] + [list(x) for x in itertools.combinations(tools.LANGS, 2)][::(4 if quick else 1)]) if p not in pairs_only else []:
+            if any(alone[l][0] != 0 for l in sub):
+                continue
+            union = {}
+            clash = False
+            for l in sub:
+                for fn, data in alone[l][1].items():
+                    if fn in union and union[fn] != data:
+                        clash = True
+                    union[fn] = data
+            if clash:
+                continue        # two targets emit different files under one relative name: what "the" result is there is undefined
+            wd = os.path.join(ctx.scr.dir, 'c14', p.tag, 'shared_' + '_'.join(sub))
+            rc, log, trees = cli_compile(ctx, text, sub, wd, shared=True)
+            shutil.rmtree(wd, ignore_errors=True)
+            ctx.evaluated(1, key=(p.tag, 'shared-dir', tuple(sub)))
+            ctx.counters['cli-runs-into-one-shared-directory'] += 1
+            if rc != 0:
+                ctx.counters['cli-nonzero'] += 1
+                continue
+            d = tree_diff(union, trees[sub[0]])
+            if d:
+                triage(ctx, 'C14', sub[0], p, text, 'output-differs', 'targets %s written into ONE directory: the directory differs from the union of the stand-alone file sets: %s' % (sub, d[:5]),
+                       {'dsl': text, 'subset': sub, 'diff': d, 'mode': 'shared-directory'})
     ctx.cov['cli_subsets_per_protocol'] = 63
     probes(ctx, 'C14')
 
@@ -345,6 +388,17 @@ def c08(ctx):
         if r0.get('syn_err') or r0.get('diags') or not r0.get('parsed'):
             skipped += 1
             ctx.counters['base-rejected'] += 1
+            # the canonical spelling is refused: if ANY rewritten spelling of the same protocol is accepted the two texts do not
+            # "mean the same" to the compiler (a protocol every spelling of which is refused is C12's subject, not this check's)
+            rng = random.Random('%s/%s/v' % (ctx.seed, p.tag))
+            for rs in REWRITE_SETS:
+                text, style = variant_text(p, rs, rng)
+                r = ctx.vapi.compile(text, tools.LANGS)
+                ctx.evaluated(1, key=(p.tag, rs['name'], 'base-rejected'))
+                if not (r.get('syn_err') or r.get('diags') or not r.get('parsed')):
+                    triage(ctx, 'C08', 'all', p, text0, 'variant-rejected', 'the canonical text is rejected (%s %s) while rewrite set %s of the same protocol is accepted' % (
+                        (r0.get('syn_err') or '')[:200], r0.get('diags'), rs['name']), {'canonical': text0, 'variant': text, 'rewrite': rs['name'], 'diags': r0.get('diags'), 'syn_err': r0.get('syn_err')})
+                    break
             continue
         rng = random.Random('%s/%s/v' % (ctx.seed, p.tag))
         sets = REWRITE_SETS if not quick else [REWRITE_SETS[0], REWRITE_SETS[1]] + rng.sample(REWRITE_SETS[2:], nvar - 2)
